@@ -742,11 +742,51 @@ def mk_try(e):
     return ("try", e)
 
 
+_PROG = [None]      # the program being analysed (set by Program.__init__): lets expression constructors look into closure bodies
+
+
+def flat_source(src):
+    """`xs.iter().flat_map(|x| x.ys.iter())`: (outer source, inner source with the closure's parameter replaced by the outer element), or None"""
+    s0 = strip(src)
+    prog = _PROG[0]
+    if prog is None or s0[0] != "call" or s0[1].split("::")[-1] != "flat_map" or len(s0[2]) != 2:
+        return None
+    c = strip(s0[2][1])
+    if c[0] != "closure":
+        return None
+    cb = prog.body(c[1])
+    if cb is None:
+        return None
+    rets = []
+    for bi, si, st in cb.iter_stmts():
+        if st["k"] == "assign" and st["place"]["l"] == 0 and not st["place"]["p"]:
+            rets.append(cb.rec_rvalue(st["rv"], bi, si))
+    for bi, t in cb.calls():
+        if t["dest"]["l"] == 0 and not t["dest"]["p"]:
+            rets.append(cb.rec_call(t, bi))
+    if len(rets) != 1:
+        return None
+    outer = s0[2][0]
+
+    def sub(e):
+        if not isinstance(e, tuple):
+            return e
+        if e and e[0] == "param" and e[1] == 2:
+            return ("elem", outer)
+        if e and e[0] == "field" and len(e) == 3:
+            return mk_field(sub(e[1]), e[2])
+        return tuple(sub(x) if isinstance(x, tuple) else x for x in e)
+    return outer, sub(strip(rets[0]))
+
+
 def mk_vfield(e, variant, name):
     # payload of x? : Continue(v) of branch(x) is the success payload of x
     if e[0] == "branch" and variant == "Continue":
         return mk_try(e[1])
     if e[0] == "next" and variant == "Some":
+        fs = flat_source(e[1])
+        if fs is not None:
+            return ("elem", fs[1])          # an element of the flattened sequence is an element of the inner sequence of an outer element
         return ("elem", e[1])
     if e[0] == "agg" and e[2] == variant:
         for (n, v) in e[3]:
@@ -900,6 +940,7 @@ def strip(e):
 class Program:
     def __init__(self, facts_dir):
         self.facts_dir = facts_dir
+        _PROG[0] = self
         self.bodies = []
         self.by_id = {}
         self.by_nname = defaultdict(list)
